@@ -23,7 +23,7 @@ def story_ids(tree):
     for k in rc[4]:
         if k[0] == 'story':
             c = X.find(k, 'storyID')
-            out.append(('nostoryid',) if c is None else c[2])
+            out.append(None if c is None else c[2])
     return out
 
 
@@ -32,7 +32,7 @@ def item_ids(story):
     for k in story[4]:
         if k[0] == 'item':
             c = X.find(k, 'itemID')
-            out.append(('noitemid',) if c is None else c[2])
+            out.append(None if c is None else c[2])
     return out
 
 
@@ -212,3 +212,66 @@ class AddCheck:
                 if changed:
                     break
         return v
+
+
+# ---- histories on one live RunningOrder object (the add cases above start from a freshly
+# parsed running order every time; state kept inside the object is only seen here)
+
+def live_histories(tier, rng, n_quick=40, n_thorough=400):
+    import gens
+    from docs import E, to_text, ro_replace, metadata_replace, ro_delete, story_send, p, story_append
+    n = n_quick if tier == 'quick' else n_thorough
+    for h in range(n):
+        sids = gens.STORY_IDS[:rng.randrange(1, 4)]
+        ro = gens.vary_envelope(rng, to_text(gens.make_ro(sids, layout=rng.choice(gens.RO_LAYOUTS), timing=rng.choice(gens.TIMINGS))))
+        state = ro
+        msgs = []
+        c = [0]
+
+        def fresh():
+            c[0] += 1
+            return 'L%d_%d' % (h, c[0])
+        for j in range(rng.randrange(3, 10)):
+            cs, ci = gens.state_ids(state)
+            r = rng.random()
+            if r < 0.35:
+                d = gens.random_story_message(rng, cs, 20 + j, fresh)
+            elif r < 0.6:
+                d = gens.random_item_message(rng, cs, ci, 20 + j, fresh)
+            elif r < 0.8:
+                d = ro_replace(20 + j, [gens.new_story(fresh()) for _ in range(rng.randrange(0, 3))] +
+                               ([gens.new_story(rng.choice(cs))] if cs and rng.random() < 0.5 else []))
+            elif r < 0.9:
+                d = metadata_replace(20 + j, [E('roSlug', text='s%d' % j)])
+            elif r < 0.95 and cs:
+                d = story_send(20 + j, rng.choice(cs), body=[p('t'), E('storyItem', E('itemID', text='q%d' % j))])
+            else:
+                d = ro_delete(20 + j)
+            t = gens.vary_envelope(rng, to_text(d))
+            msgs.append(t)
+            res = impl.run_add(state, t)
+            if 'tree' in res and not res.get('err'):
+                state = X.tree_to_string(res['tree'])
+        yield {'ro': ro, 'msgs': msgs}
+
+
+def compare_histories(cases, obs_step, judge_step):
+    """(n steps, disagreements, violations) over live-object histories"""
+    dis, vio = [], []
+    n = 0
+    for c, (isteps, msteps) in zip(cases, engine.hist_cases(cases)):
+        prev = X.elem_to_tree(impl.parse_doc(c['ro']))
+        for k, (a, b) in enumerate(zip(isteps, msteps)):
+            n += 1
+            what = judge_step(c, k, a, prev)
+            case = {'kind': 'hist', 'ro': c['ro'], 'msgs': c['msgs'][:k + 1]}
+            if what:
+                vio.append({'what': what, 'case': case, 'impl': str(obs_step(a))[:300], 'expected': str(obs_step(b))[:300]})
+            if obs_step(a) != obs_step(b):
+                dis.append({'case': case, 'impl': str(obs_step(a))[:300], 'model': str(obs_step(b))[:300], 'explained': bool(what)})
+                break
+            if what:
+                break
+            if 'tree' in a:
+                prev = a['tree']
+    return n, dis, vio
